@@ -248,6 +248,27 @@ fn catalogue(thorough: bool) -> Vec<Member> {
             }
         }
     }
+    // "duplicates": 20 / 60 rows that are copies of only 1..3 distinct points located away from the
+    // origin (box [5,9] x [3,7] x [4,8]); fitted with up to 4 components, i.e. also with MORE components
+    // than distinct points, which is what empties a component (k-means initialisation) and must end
+    // in Err(EmptyCluster) or in a valid model
+    const DISTINCT: [[f64; 3]; 3] = [[5.25, 6.5, 4.5], [8.75, 3.125, 7.25], [6.5, 4.75, 5.75]];
+    let dup_dims: Vec<usize> = if thorough { vec![1, 2, 3] } else { vec![1, 2] };
+    for &d in &dup_dims {
+        for p in 1..=3usize {
+            for n in [20usize, 60] {
+                // unequal multiplicities, blocks in the order of DISTINCT: cumulative shares 50 % / 80 % / 100 %
+                let data: Vec<Vec<f64>> = (0..n)
+                    .map(|i| {
+                        let f = i as f64 / n as f64;
+                        let which = if p == 1 { 0 } else if p == 2 { (f >= 0.6) as usize } else { (f >= 0.5) as usize + (f >= 0.8) as usize };
+                        DISTINCT[which][..d].to_vec()
+                    })
+                    .collect();
+                out.push(Member { id: format!("duplicates-d{}-p{}-n{}", d, p, n), family: "duplicates", data });
+            }
+        }
+    }
     out
 }
 
@@ -545,7 +566,9 @@ fn run_fit(case: &Case, cfg: &Cfg, cnt: &mut Cnt, viols: &mut Vec<Violation>) ->
         for i in 0..d {
             mix[i][i] -= cfg.reg;
         }
-        let tol_m = TOL_MOMENT_REL * (max_abs(&total) + cfg.reg);
+        // absolute floor (1e-10 (1 + max|x|))^2: the square of the rounding of a mean, which is all that is
+        // left when every row is the same point and reg_covar = 0 (population covariance exactly 0)
+        let tol_m = TOL_MOMENT_REL * (max_abs(&total) + cfg.reg) + (1e-10 * (1.0 + xmax)).powi(2);
         let mut worst = (0.0f64, 0usize, 0usize);
         for i in 0..d {
             for j in 0..d {
@@ -635,10 +658,16 @@ fn run_fit(case: &Case, cfg: &Cfg, cnt: &mut Cnt, viols: &mut Vec<Violation>) ->
         *affected.entry(sig).or_insert(0) += 1;
         first.entry(sig).or_insert((i, what));
     };
+    let mut train_resp = vec![0.0f64; k];
     for (i, q) in qs.iter().enumerate() {
         let row: Vec<f64> = proba.row(i).to_vec();
         let refs: Vec<(f64, f64)> = comps.iter().map(|c| c.wlp(&q.x)).collect();
         let wl: Vec<f64> = refs.iter().map(|r| r.0).collect();
+        if i < n {
+            for (c, p) in posterior(&wl).iter().enumerate() {
+                train_resp[c] += p;
+            }
+        }
         let errs: Vec<f64> = refs.iter().zip(&comps).map(|((l, maha), c)| ERR_COND * c.cond * (maha + d as f64) + 1e-13 * l.abs()).collect();
         let err_max = errs.iter().cloned().fold(0.0f64, f64::max);
         let wl_max = wl.iter().cloned().fold(f64::NEG_INFINITY, f64::max);
@@ -726,6 +755,12 @@ fn run_fit(case: &Case, cfg: &Cfg, cnt: &mut Cnt, viols: &mut Vec<Violation>) ->
             }
         }
     }
+    // statistic only (not demanded by the statement for a model that passed the guard one step earlier):
+    // components whose total responsibility over the training rows, recomputed from the published
+    // parameters, is below the subject's own emptiness threshold 10 eps
+    if train_resp.iter().any(|&r| r < 10.0 * f64::EPSILON) {
+        cnt.add("ok_models_with_a_component_of_total_training_responsibility_below_10eps", 1);
+    }
     for (sig, (i, what)) in first {
         let nq_aff = affected[sig];
         cnt.add(&format!("queries_affected.{}", sig), nq_aff);
@@ -772,15 +807,16 @@ fn main() {
     let ctx = Ctx::new("C10", Level::Exploration);
     ctx.maybe_replay(&replay_value);
     ctx.set_rule(
-        "case group = (catalogue dataset, component count 1..3, initialiser KMeans|Random, rng seed 0..3 (quick) / 0..15 (thorough)); inside a group the full grid reg_covar {1e-6,1e-3,0.1} (+ 0 for the degenerate family; thorough: everywhere) x tolerance {1e-3,1e-5} x n_runs {1,3} x max_n_iterations {100, 5} is walked; \
-         the catalogue = families {separated, overlapping, anisotropic (axis scales 0.2..3, rotated), far (blobs 1000 apart), degenerate (one constant coordinate / duplicated rows)} x features 1..3 (quick) / 1..6 (thorough) x {2,3} blobs x {10 rows each, 25/15/20 rows}, every member is run; \
+        "case group = (catalogue dataset, component count 1..3 (1..4 for the duplicates family), initialiser KMeans|Random, rng seed 0..3 (quick) / 0..15 (thorough)); inside a group the full grid reg_covar {1e-6,1e-3,0.1} (+ 0 for the degenerate family; thorough: everywhere) x tolerance {1e-3,1e-5} x n_runs {1,3} x max_n_iterations {100, 5} is walked; \
+         the catalogue = families {separated, overlapping, anisotropic (axis scales 0.2..3, rotated), far (blobs 1000 apart), degenerate (one constant coordinate / duplicated rows)} x features 1..3 (quick) / 1..6 (thorough) x {2,3} blobs x {10 rows each, 25/15/20 rows}, \
+         plus the family duplicates = {20, 60} rows that are copies of only 1..3 distinct points inside the box [5,9]x[3,7]x[4,8] (origin outside), features 1..2 (quick) / 1..3 (thorough), fitted with 1..4 components (more components than distinct points empties a component) and reg_covar {0,1e-9,1e-6,1e-3,0.1}; every member is run; \
          per successful fit the query menu = every training row, every component mean, and mean_k + t u for every component k, every u in {+-e_j} and {(+-1,..,+-1)/sqrt(d)}, t such that the Mahalanobis distance to component k is exactly s, s in {10,38,39,100,1e3,1e6}. \
          evaluation = one fit with all its parameter and query oracles; non-trivial = the fit returned a model with >= 2 components (an Err is an accepted outcome and counted per error kind); distinct by construction of the grid.",
     );
     ctx.assume("datasets are built from an LCG with fixed constants (bell-shaped deviates = centred sum of four uniforms), rounded to 6 decimals; VERIF_SEED does not enter; the dataset catalogue is a finite hand-made family, not a sample");
     ctx.assume("weights: each > 0, |sum - 1| <= 1e-9; means inside the data bounding box +- 1e-9 (1 + max|x|); covariances symmetric to 1e-10 relative, positive definite = refmath::cholesky of the symmetrised matrix succeeds, diagonal >= reg_covar (1 - 1e-12)");
     ctx.assume("precisions: max |P S - I| <= 1e-13 * cond(S) + 1e-12 with cond from the Jacobi eigenvalues; components with a bound above 1e-6 are counted indeterminate");
-    ctx.assume("'diagonal includes the regularisation' is made exact through the M-step moment identity sum_k w_k (S_k + (mu_k - m)(mu_k - m)^T) - reg I = population covariance of the data and sum_k w_k mu_k = data mean, relative 1e-9; holds for ANY responsibilities whose rows sum to one, hence for every accepted EM iterate");
+    ctx.assume("'diagonal includes the regularisation' is made exact through the M-step moment identity sum_k w_k (S_k + (mu_k - m)(mu_k - m)^T) - reg I = population covariance of the data and sum_k w_k mu_k = data mean, relative 1e-9 (covariance: + absolute floor (1e-10 (1 + max|x|))^2); holds for ANY responsibilities whose rows sum to one, hence for every accepted EM iterate");
     ctx.assume("predict_proba rows: all finite, all >= 0, |sum - 1| <= 1e-9; predict: index < k and probability >= row maximum - 1e-12 (any member of the tie set)");
     ctx.assume("reference posterior: own Cholesky of the published covariances, weighted log densities, max-shifted log-sum-exp; discrepancy bound per component 1e-13 * cond * (mahalanobis^2 + d) + 1e-13 |log density|; probabilities compared with k * bound + 1e-9 when the bound <= 1e-4 (else indeterminate), only where the largest weighted log density is above ln(f64::MIN_POSITIVE) + 1 + min(bound, 5 % of its value) (the same slack delimits the regimes of the three narrow signatures: all-inf row only below that line, finite row with a wrong sum only between it and -745.2 - slack); predict must lie within 2 * bound + 1e-9 (1 + |max|) of the maximal reference weighted log density (else violation; smaller non-zero gaps indeterminate)");
     ctx.assume("an Err from fit (NotConverged, EmptyCluster, LinalgError, KMeansError, MinMaxError, LowerBoundError) is an accepted outcome; InvalidValue for the valid grid, a panic, or an Ok model with non-finite parameters is a violation; f64 only");
@@ -790,7 +826,8 @@ fn main() {
     let max_iters: Vec<u64> = vec![100, 5];
     let mut cases: Vec<Case> = Vec::new();
     for m in &members {
-        for k in 1..=3usize {
+        let kmax = if m.family == "duplicates" { 4usize } else { 3 };
+        for k in 1..=kmax {
             for init in ["kmeans", "random"] {
                 for &seed in &seeds {
                 cases.push(Case {
@@ -802,7 +839,13 @@ fn main() {
                     seeds: vec![seed],
                     // reg_covar = 0 ("non-negative" per the rustdoc) only where it is interesting: rank-deficient
                     // data (quick) / everywhere (thorough)
-                    reg_covars: if ctx.thorough() || m.family == "degenerate" { vec![0.0, 1e-6, 1e-3, 0.1] } else { vec![1e-6, 1e-3, 0.1] },
+                    reg_covars: if m.family == "duplicates" {
+                        vec![0.0, 1e-9, 1e-6, 1e-3, 0.1]
+                    } else if ctx.thorough() || m.family == "degenerate" {
+                        vec![0.0, 1e-6, 1e-3, 0.1]
+                    } else {
+                        vec![1e-6, 1e-3, 0.1]
+                    },
                     tolerances: vec![1e-3, 1e-5],
                     n_runs: vec![1, 3],
                     max_iters: max_iters.clone(),
